@@ -15,6 +15,8 @@ import (
 	dtls "github.com/pion/dtls/v3"
 	dtlsstate "github.com/pion/dtls/v3/internal/state"
 	"github.com/pion/dtls/v3/pkg/crypto/elliptic"
+	"github.com/pion/dtls/v3/pkg/protocol/extension"
+	"github.com/pion/dtls/v3/pkg/protocol/handshake"
 	"github.com/pion/dtls/v3/zzverif/run"
 	"github.com/pion/dtls/v3/zzverif/world"
 )
@@ -174,6 +176,22 @@ const (
 	pGCM = dtls.SRTP_AEAD_AES_128_GCM
 )
 
+// dropOnRetry is a ClientHello hook that removes one extension from every ClientHello that carries a cookie.
+func dropOnRetry(t extension.Type) dtls.Option {
+	return dtls.WithClientHelloMessageHook(func(m handshake.MessageClientHello) handshake.Message {
+		if len(m.Cookie) > 0 {
+			kept := make([]extension.Value, 0, len(m.Extensions))
+			for _, e := range m.Extensions {
+				if e.ExtensionType() != t {
+					kept = append(kept, e)
+				}
+			}
+			m.Extensions = kept
+		}
+		return &m
+	})
+}
+
 func devCatalogue() []dev {
 	return []dev{
 		// signature schemes
@@ -254,6 +272,14 @@ func devCatalogue() []dev {
 			c.Curves, s.Curves = []elliptic.Curve{elliptic.P384}, []elliptic.Curve{elliptic.X25519, elliptic.P384}
 		}},
 		{"hv", "helloverify=off", func(c, s *world.Cfg) { s.SkipHelloVerify = true }},
+		// a client whose second ClientHello (the one that carries the cookie) no longer offers an extension the
+		// first one offered (ClientHello hook): the server answers the SECOND hello, so it may not echo it
+		{"hook", "hook=ch2-drops-alpn", func(c, s *world.Cfg) {
+			c.ALPN, s.ALPN = []string{"a"}, []string{"a"}
+			c.Extra = append(c.Extra, dropOnRetry(extension.TypeALPN))
+		}},
+		{"hook", "hook=ch2-drops-ems", func(c, s *world.Cfg) { c.Extra = append(c.Extra, dropOnRetry(extension.TypeExtendedMasterSecret)) }},
+		{"hook", "hook=ch2-drops-renegotiation-info", func(c, s *world.Cfg) { c.Extra = append(c.Extra, dropOnRetry(extension.TypeRenegotiationInfo)) }},
 	}
 }
 
@@ -914,7 +940,7 @@ func TestC11(t *testing.T) {
 	cases = append(cases, resumed...)
 	run.Main(t, "C11", cases, map[string]any{
 		"resumed_policy_change_cases": len(resumed),
-		"core_product": nCore, "version_ranges": len(ranges), "suite_shapes": len(suiteShapes), "server_credentials": creds,
+		"core_product":                nCore, "version_ranges": len(ranges), "suite_shapes": len(suiteShapes), "server_credentials": creds,
 		"curve_shapes": len(curveShapes), "ems_policies": 3,
 		"deviation_values": len(devs), "deviation_dimensions": dl, "deviations_max": kDev, "deviation_sets": len(sets), "bases": len(bs), "deviation_cases": nDev,
 		"horizon_s": int(horizon.Seconds()),
